@@ -159,6 +159,14 @@ def corpus():
         "partial-value": L.add.partial(L.inc(1)),
         "task-values": [L.inc, L.add.partial(1, b=2)],
         "type-error-add": L.inc(1) + "a",
+        # one term shared by two consumers under the same parent job (one promise per parent and expression hash)
+        "shared-seq": [L.add(L.inc(1), L.twice(2)), seq([L.inc(1), L.inc(1)])],
+        "shared-cond": [L.add(L.inc(1), L.inc(3)), cond(L.inc(1), L.inc(1), 0)],
+        "shared-map-partial": [L.pair(L.mklist(2), L.mklist(3)), map_(L.pair.partial(L.mklist(2)), L.mklist(2))],
+        "shared-later-first": [seq([L.inc(1), L.inc(1)]), L.add(L.twice(2), b=L.inc(1))],
+        "shared-failing": [L.pair(L.raiser("V", 50), L.inc(1)), catch(seq([L.raiser("V", 50), L.raiser("V", 50)]), ValueError, L.rec_zero)],
+        "shared-in-task": L.identity([L.add(L.inc(1), L.rsum(2)), seq([L.inc(1), L.inc(1)])]) if hasattr(L, "identity") else
+        identity([L.add(L.inc(1), L.rsum(2)), seq([L.inc(1), L.inc(1)])]),
         "rdiv-zero": 0 / L.inc(-1),
         "all-operators": [L.inc(1) == 2, L.inc(1) != 2, L.inc(1) < 3, L.inc(1) <= 2, L.inc(1) > 2, L.inc(1) >= 2, L.inc(1) + 1,
                           1 + L.inc(1), L.inc(1) - 1, 1 - L.inc(1), L.inc(1) * 3, 3 * L.inc(1), L.inc(1) & 0,
@@ -261,8 +269,14 @@ def run(ctx):
         ctx.count("feature", k, v)
     replies = ctx.model("C01", ["(eval i%d %s)" % (FUEL, sx) for _, _, sx, _ in progs])
     k_seeds = 2 if ctx.tier == "quick" else 3
-    for (name, e, sx, tags), rep in zip(progs, replies):
-        seeds = (["lifo"] if ctx.tier == "quick" else ["fifo", "lifo"]) + [rng.getrandbits(30) for _ in range(k_seeds - 1)]
+    for idx, ((name, e, sx, tags), rep) in enumerate(zip(progs, replies)):
+        # completion orders: first-submitted-first and last-submitted-first (a shared / earlier term finishes before or
+        # after its siblings) plus seeded random ones; quick tier: both fixed orders for the corpus, alternating otherwise
+        if ctx.tier != "quick" or tags.get("source") == "corpus":
+            fixed = ["fifo", "lifo"]
+        else:
+            fixed = ["fifo"] if idx % 2 == 0 else ["lifo"]
+        seeds = fixed + [rng.getrandbits(30) for _ in range(max(1, k_seeds - 1))]
         check_program(ctx, G, R, name, e, sx, rep, seeds, tags)
     free_running(ctx, G, R, base)
 
